@@ -24,29 +24,31 @@ abbrev Step (α : Type) := Nat → Nat → Nat → Nat → Nat → World α → 
 /-- contract of one direct change of layout with respect to a family `P i arrs` ("the per-rank arrays `arrs`
     hold the field in layout `i`"): reading role `x`, it succeeds, leaves the field in role `y`, and touches no
     role other than `y` and the scratch role `z`. -/
-def StepOK (step : Step α) (P : Nat → Array (Array α) → Prop) (conn : Nat → Nat → Prop) : Prop :=
-  ∀ iS iD x y z (w : World α), conn iS iD → y ≠ x → y ≠ z → P iS (w.getD x #[]) →
-    ∃ w', step iS iD x y z w = .ok w' ∧ P iD (w'.getD y #[]) ∧ ∀ r, r ≠ y → r ≠ z → w'.getD r #[] = w.getD r #[]
+def StepOK (step : Step α) (P : Nat → Array (Array α) → Prop) (conn : Nat → Nat → Prop)
+    (I : World α → Prop := fun _ => True) : Prop :=
+  ∀ iS iD x y z (w : World α), I w → conn iS iD → y ≠ x → y ≠ z → P iS (w.getD x #[]) →
+    ∃ w', step iS iD x y z w = .ok w' ∧ P iD (w'.getD y #[]) ∧ I w' ∧
+      ∀ r, r ≠ y → r ≠ z → w'.getD r #[] = w.getD r #[]
 
 theorem fold_steps (step : Step α) (P : Nat → Array (Array α) → Prop) (conn : Nat → Nat → Prop)
-    (hstep : StepOK step P conn) :
-    ∀ (steps : List Nat) (now fromB toB : Nat) (w : World α), fromB ≠ toB → IsPath conn now steps →
+    (I : World α → Prop) (hstep : StepOK step P conn I) :
+    ∀ (steps : List Nat) (now fromB toB : Nat) (w : World α), I w → fromB ≠ toB → IsPath conn now steps →
       P now (w.getD fromB #[]) →
       ∃ w' a b, steps.foldlM (loopBody step) (w, now, fromB, toB) = .ok (w', lastOf now steps, a, b) ∧
-        P (lastOf now steps) (w'.getD a #[]) ∧
+        P (lastOf now steps) (w'.getD a #[]) ∧ I w' ∧
         ((steps.length % 2 = 0 ∧ a = fromB ∧ b = toB) ∨ (steps.length % 2 = 1 ∧ a = toB ∧ b = fromB)) ∧
         ∀ r, r ≠ fromB → r ≠ toB → w'.getD r #[] = w.getD r #[] := by
   intro steps
   induction steps with
   | nil =>
-    intro now fromB toB w _ _ hP
-    exact ⟨w, fromB, toB, rfl, hP, Or.inl ⟨rfl, rfl, rfl⟩, fun _ _ _ => rfl⟩
+    intro now fromB toB w hI _ _ hP
+    exact ⟨w, fromB, toB, rfl, hP, hI, Or.inl ⟨rfl, rfl, rfl⟩, fun _ _ _ => rfl⟩
   | cons next rest ih =>
-    intro now fromB toB w hne hpath hP
+    intro now fromB toB w hI hne hpath hP
     obtain ⟨hc, hrest⟩ := hpath
-    obtain ⟨w1, h1, hP1, hfr1⟩ := hstep now next fromB toB fromB w hc (Ne.symm hne) (Ne.symm hne) hP
-    obtain ⟨w', a, b, h2, hP2, hpar, hfr2⟩ := ih next toB fromB w1 (Ne.symm hne) hrest hP1
-    refine ⟨w', a, b, ?_, hP2, ?_, ?_⟩
+    obtain ⟨w1, h1, hP1, hI1, hfr1⟩ := hstep now next fromB toB fromB w hI hc (Ne.symm hne) (Ne.symm hne) hP
+    obtain ⟨w', a, b, h2, hP2, hI2, hpar, hfr2⟩ := ih next toB fromB w1 hI1 (Ne.symm hne) hrest hP1
+    refine ⟨w', a, b, ?_, hP2, hI2, ?_, ?_⟩
     · rw [List.foldlM_cons]
       simp only [loopBody, h1]
       exact h2
